@@ -478,6 +478,9 @@ func parseW3cDate(metaName, str string) (time.Time, error) {
 			}
 			tzHour = toInt(match[W3CDateReGroupsIndexes["tzHour"]])
 			tzMinute = toInt(match[W3CDateReGroupsIndexes["tzMinute"]])
+			if strings.HasPrefix(match[W3CDateReGroupsIndexes["tzHour"]], "-") {
+				tzMinute = -tzMinute // the sign applies to the minutes too (-05:30, -00:30)
+			}
 		}
 	}
 	loc := time.UTC
